@@ -2,6 +2,8 @@ package kit
 
 import (
 	"fmt"
+	"go/constant"
+	"go/token"
 	"go/types"
 	"sync"
 
@@ -104,11 +106,102 @@ func (f *Flow) edgeVal(p, b *ssa.BasicBlock) bool {
 		if f.EdgeKill != nil && f.EdgeKill(a) {
 			v = false
 		}
-		if f.Edge != nil && f.Edge(a) {
+		if f.Edge != nil && (f.Edge(a) || f.predicateGen(a)) {
 			v = true
 		}
 	}
 	return v
+}
+
+// predicateGen: the branch condition is the boolean result of a module
+// function (`if !d.acceptable(x) { continue }`): the fact is generated on the
+// edge where the result is `want` if, inside the predicate, it holds before
+// every return that can yield `want` (guards moved into a bool-returning
+// helper). Only sound for function-agnostic callbacks, like callee summaries.
+func (f *Flow) predicateGen(a Atom) bool {
+	if f.deep <= 0 || f.Edge == nil || a.L == nil || a.R != constTrue {
+		return false
+	}
+	var want bool
+	switch a.Op {
+	case token.EQL:
+		want = true
+	case token.NEQ:
+		want = false
+	default:
+		return false
+	}
+	call, ok := a.L.V.(*ssa.Call)
+	if !ok {
+		return false
+	}
+	g := call.Call.StaticCallee()
+	if g == nil || g.Blocks == nil || g == f.Fn || !InModule(FnPkgPath(g)) {
+		return false
+	}
+	res := g.Signature.Results()
+	if res.Len() != 1 {
+		return false
+	}
+	if b, ok := res.At(0).Type().Underlying().(*types.Basic); !ok || b.Kind() != types.Bool {
+		return false
+	}
+	if f.ds == nil {
+		f.ds = &deepState{memo: map[deepKey]bool{}, stack: map[*ssa.Function]bool{}}
+	}
+	if f.ds.pred == nil {
+		f.ds.pred = map[predKey]bool{}
+	}
+	key := predKey{g, want}
+	if v, ok := f.ds.pred[key]; ok {
+		return v
+	}
+	if f.ds.stack[g] {
+		return false
+	}
+	f.ds.stack[g] = true
+	sub := &Flow{P: f.P, Fn: g, Entry: false, Edge: f.Edge, EdgeKill: f.EdgeKill, Instr: f.Instr, deep: f.deep - 1, deepOK: f.deepOK, NoSummary: f.NoSummary, ds: f.ds}
+	sub.Solve()
+	okAll, n := true, 0
+	for _, b := range g.Blocks {
+		if len(b.Instrs) == 0 {
+			continue
+		}
+		r, isRet := b.Instrs[len(b.Instrs)-1].(*ssa.Return)
+		if !isRet || len(r.Results) != 1 {
+			continue
+		}
+		val := r.Results[0]
+		// look through the result cell of functions with defers
+		if ld, isLoad := val.(*ssa.UnOp); isLoad && ld.Op == token.MUL {
+			if cell, isAlloc := ld.X.(*ssa.Alloc); isAlloc {
+				for i := len(b.Instrs) - 1; i >= 0; i-- {
+					if st, isStore := b.Instrs[i].(*ssa.Store); isStore && st.Addr == ssa.Value(cell) {
+						val = st.Val
+						break
+					}
+				}
+			}
+		}
+		if c, isConst := val.(*ssa.Const); isConst && c.Value != nil && c.Value.Kind() == constant.Bool {
+			if constant.BoolVal(c.Value) != want {
+				continue
+			}
+		}
+		n++
+		if !sub.Before(r) {
+			okAll = false
+		}
+	}
+	delete(f.ds.stack, g)
+	v := okAll && n > 0
+	f.ds.pred[key] = v
+	return v
+}
+
+type predKey struct {
+	fn   *ssa.Function
+	want bool
 }
 
 // EdgeAtoms returns the atoms known to hold when cond evaluates to truth.
@@ -426,6 +519,7 @@ func DumpAtoms(fn *ssa.Function) []string {
 type deepState struct {
 	memo  map[deepKey]bool
 	stack map[*ssa.Function]bool
+	pred  map[predKey]bool
 }
 
 type deepKey struct {
